@@ -212,6 +212,10 @@ def run_check(prop, tier, seed, replay=None, nshards=None, keep=False):
     for r in merged["inconclusive"][:12]:
         print("INCONCLUSIVE property=%s reason=%s" % (
             prop, r.replace("\n", " | ")[-700:]))
+    if merged["truncated"]:
+        print("NOTE property=%s the soft deadline ended the case list early "
+              "(machine loaded?): the evidence file says what was covered"
+              % prop)
     if unknown:
         rc = 1
     elif merged["inconclusive"]:
